@@ -63,6 +63,17 @@ def gen_cases(rng, ctx):
     for F in [1, 2, 3, 10, 100]:
         for _ in range(ctx.pick(3, 20)):
             cases.append({"F": F, "call": "select_frames", "ixs": [rng.randrange(F) for _ in range(rng.randint(1, 6))], "seed": 0})
+        # structured index lists: contiguous blocks in shuffled / reversed / rotated order, repeats whose end points span exactly len − 1
+        for _ in range(ctx.pick(6, 30)):
+            a = rng.randrange(F); b = rng.randint(a, min(F - 1, a + 5))
+            block = list(range(a, b + 1))
+            shuffled = block[:]; rng.shuffle(shuffled)
+            variants = [block, block[::-1], shuffled, block[1:] + block[:1]]
+            if len(block) >= 3:
+                rep = [block[0]] + [rng.choice(block) for _ in range(len(block) - 2)] + [block[-1]]
+                variants.append(rep)
+            for v in variants:
+                cases.append({"F": F, "call": "select_frames", "ixs": v, "seed": 0})
         for by in sorted({1, 2, 3, 7, F, F + 1}):
             cases.append({"F": F, "call": "slice_step", "by": by, "seed": 0})
         for p in [0.0, 0.25, 0.5, 0.125, 0.3, 0.75, 0.99, 1.0, 1.5]:
